@@ -132,6 +132,19 @@ Theorem C02_ldc_threshold : forall idx,
 Proof. exact ldc_threshold. Qed.
 Print Assumptions C02_ldc_threshold.
 
+(* the BootstrapMethods table: de-duplicated, index = position, earlier indices preserved *)
+Theorem C02_bsm_new : BInv bsm_new.
+Proof. exact bsm_new_inv. Qed.
+Print Assumptions C02_bsm_new.
+
+Theorem C02_bsm_put : forall t e t' i,
+  BInv t -> bsm_put t e = Ok (t', i) ->
+  BInv t' /\ bsm_get t' i = Some e /\
+  (forall j x, bsm_get t j = Some x -> bsm_get t' j = Some x) /\
+  0 <= i < zlen (b_inner t') /\ i <= 65535.
+Proof. exact bsm_put_spec. Qed.
+Print Assumptions C02_bsm_put.
+
 (* ---------- length fields ---------- *)
 Theorem C02_attribute_length_exact : forall name_index body bs pre post,
   write_attribute name_index body = Ok bs ->
